@@ -47,24 +47,86 @@ Proof.
   inversion E; subst. right. eapply H; eauto.
 Qed.
 
+(* association-list lemmas for match_index *)
+Lemma mget_mdel : forall k k' m, mget k' (mdel k m) = if k' =? k then None else mget k' m.
+Proof.
+  induction m as [|[k0 v0] r IH]; cbn; [destruct (k' =? k); auto|].
+  destruct (k =? k0) eqn:E.
+  - rewrite IH. destruct (k' =? k) eqn:E1; auto. destruct (k' =? k0) eqn:E2; auto. lia.
+  - cbn. destruct (k' =? k0) eqn:E2; auto. destruct (k' =? k) eqn:E1; auto. lia.
+Qed.
+
+Lemma mget_mins : forall k v k' m, mget k m = None ->
+  mget k' (mins k v m) = if k' =? k then Some v else mget k' m.
+Proof.
+  induction m as [|[k0 v0] r IH]; intro H; cbn in *; [destruct (k' =? k); auto|].
+  destruct (k =? k0) eqn:E0; [discriminate|].
+  destruct (k <? k0); cbn.
+  - destruct (k' =? k) eqn:E1; auto.
+  - destruct (k' =? k0) eqn:E2.
+    + destruct (k' =? k) eqn:E1; auto. lia.
+    + apply IH; auto.
+Qed.
+
+Lemma mget_mset : forall k v k' m, mget k' (mset k v m) = if k' =? k then Some v else mget k' m.
+Proof.
+  intros. unfold mset. rewrite mget_mins.
+  - destruct (k' =? k) eqn:E; auto. rewrite mget_mdel, E. auto.
+  - rewrite mget_mdel, N.eqb_refl. auto.
+Qed.
+
+Lemma become_leader_match_zero : forall s others f v,
+  mget f (match_index (become_leader s others)) = Some v -> v = 0.
+Proof.
+  intros s others f v. cbn [become_leader match_index].
+  assert (forall acc, (forall f v, mget f acc = Some v -> v = 0) ->
+            forall f v, mget f (fold_left (fun m f0 => mset f0 0 m) others acc) = Some v -> v = 0) as K.
+  { induction others as [|o r IH]; intros acc Hacc f0 v0; cbn [fold_left]; [apply Hacc|].
+    apply IH. intros f1 v1. rewrite mget_mset. destruct (f1 =? o); [intro E; inversion E; auto|apply Hacc]. }
+  apply K. intros f0 v0; cbn; discriminate.
+Qed.
+
+Lemma lmsg_no_ae : forall s' r, lmsg s' r -> no_ae r.
+Proof. intros s' r [(t & mi & ->)|(l & lt & -> & _)]; exact I. Qed.
+
+Lemma lmsg_no_rvr : forall s' o, (forall (to : N) r, In (to, r) o -> lmsg s' r) -> no_rvr o.
+Proof. intros s' o H to t Hin. destruct (H _ _ Hin) as [(t0 & mi & E)|(l & lt & E & _)]; discriminate. Qed.
+
+Lemma lmsg_sent : forall (sent : list (N * N * rpc)) m s' o,
+  (forall to r, In (to, r) o -> lmsg s' r) ->
+  forall f to r, In (f, to, r) (sent ++ tag_out m o) -> In (f, to, r) sent \/ (f = m /\ lmsg s' r).
+Proof.
+  intros sent m s' o H f to r Hin. apply in_app_or in Hin. destruct Hin as [Hin|Hin]; auto.
+  unfold tag_out in Hin. apply in_map_iff in Hin. destruct Hin as ([to' r'] & E & Hin). cbn in E.
+  inversion E; subst. right. split; auto. eapply H; eauto.
+Qed.
+
+Lemma mi_ok_same : forall x m s s', match_index s' = match_index s -> mi_ok x m s s'.
+Proof. intros x m s s' E R f v H _. left. congruence. Qed.
+
 (* a quiet effect that keeps the log and sends no AppendEntries *)
 Lemma l_quiet : forall n y m s' o, m < n ->
   let s := x_st (y_x y) m in
   term s' = term s -> voted_for s' = voted_for s -> votes s' = votes s ->
   (rrole s' = rrole s \/ rrole s' = Follower) -> (rrole s = Leader -> rrole s' = Leader) ->
-  log s' = log s -> no_rvr o -> (forall to r, In (to, r) o -> no_ae r) ->
+  log s' = log s -> commit s' = commit s -> (forall to r, In (to, r) o -> lmsg s' r) ->
+  mi_ok (y_x y) m s s' ->
   lreaches n y m s' o.
 Proof.
-  intros n y m s' o Hm s Ht Hv Hvs Hr Hrl Hl Ho Hae.
+  intros n y m s' o Hm s Ht Hv Hvs Hr Hrl Hl Hc Ho Hmi.
   eexists. split.
   - apply leffs_one. eapply (LSame n y m s' (x_sent (y_x y) ++ tag_out m o) (x_cast (y_x y)) (x_elected (y_x y))).
-    + eapply EQuiet; eauto.
+    + eapply EQuiet; eauto. eapply lmsg_no_rvr; eauto.
     + exact Hl.
     + fold s. lia.
     + intro R. fold s. split; auto. destruct Hr as [Hr|Hr]; congruence.
     + intros R _. apply Hrl; auto.
-    + apply no_ae_sent; auto.
+    + apply no_ae_sent. intros to r Hin. eapply lmsg_no_ae; eauto.
     + reflexivity.
+    + exact Hc.
+    + apply lmsg_sent; auto.
+    + intro R. fold s. destruct Hr as [Hr|Hr]; [repeat split; congruence|congruence].
+    + exact Hmi.
   - split; cbn; auto.
 Qed.
 
@@ -83,8 +145,18 @@ Proof.
     + cbn. intros _ T. lia.
     + intros; auto.
     + reflexivity.
+    + reflexivity.
+    + intros; auto.
+    + cbn. discriminate.
+    + intro R. cbn in R. discriminate.
   - split; cbn; auto. rewrite app_nil_r; auto.
 Qed.
+
+Lemma aer_lmsg : forall (to : N) s s' mi to' r, In (to', r) [(to, aer s false mi)] -> lmsg s' r.
+Proof. intros to s s' mi to' r [H|[]]. inversion H; subst. left. unfold aer. eauto. Qed.
+
+Lemma nil_lmsg : forall s' (to : N) (r : rpc), In (to, r) [] -> lmsg s' r.
+Proof. intros s' to r []. Qed.
 
 Lemma aer_no_ae : forall (to : N) s b mi to' r, In (to', r) [(to, aer s b mi)] -> no_ae r.
 Proof. intros to s b mi to' r [H|[]]. inversion H; subst. exact I. Qed.
@@ -104,23 +176,18 @@ Proof.
     intros y1 U; pose proof (upd_to_here _ _ _ _ _ U) as Hs1;
     destruct cur; cbn [negb] in H.
   - (* RV, current *)
-    destruct (pair_ge (llt, lli) (last_log_position s1)); cbn [andb] in H;
+    pose proof (observe_term_cur _ _ _ Eo) as Ht.
+    destruct (pair_ge (llt, lli) (last_log_position s1)) eqn:PG; cbn [andb] in H;
       [|inversion H; subst; apply lreaches_refl'; auto].
     destruct (match voted_for s1 with None => true | Some v => v =? from end) eqn:G;
       inversion H; subst s' o; clear H; [|apply lreaches_refl'; auto].
     eexists. split.
     + apply leffs_one.
-      eapply (LSame n y1 m (set_voted (x_st (y_x y1) m) (Some from))
-                (x_sent (y_x y1) ++ tag_out m [(from, RVR (term (x_st (y_x y1) m)))])
-                (x_cast (y_x y1) ++ [(term (x_st (y_x y1) m), m, from)]) (x_elected (y_x y1))).
+      eapply (LGrant n y1 m (set_voted (x_st (y_x y1) m) (Some from)) from lli llt); try reflexivity.
       * eapply (EGrant n (y_x y1) m (set_voted (x_st (y_x y1) m) (Some from)) from); cbn; auto.
         rewrite Hs1. destruct (voted_for s1) as [v|]; auto. right. f_equal. lia.
-      * reflexivity.
-      * cbn. lia.
-      * cbn. auto.
-      * cbn. auto.
-      * apply no_ae_sent. intros to r [E|[]]. inversion E; subst. exact I.
-      * reflexivity.
+      * rewrite Hs1, Ht. eapply upd_to_sent; eauto.
+      * rewrite Hs1. exact PG.
     + rewrite <- Hs1. split; cbn; auto.
   - inversion H; subst; apply lreaches_refl'; auto.
   - (* RVR, current *)
@@ -129,15 +196,10 @@ Proof.
     set (s2 := set_votes s1 (sins from (votes s1))) in *.
     assert (lreaches n y1 m s2 []) as R2.
     { eexists. split.
-      - apply leffs_one. eapply (LSame n y1 m s2 (x_sent (y_x y1)) (x_cast (y_x y1)) (x_elected (y_x y1))).
+      - apply leffs_one. eapply (LVote n y1 m s2 from); rewrite ?Hs1; try (subst s2; cbn; auto; fail).
         + eapply (EVote n (y_x y1) m s2 from); subst s2; rewrite ?Hs1; cbn; auto.
           rewrite Ht. eapply upd_to_sent; eauto.
-        + rewrite Hs1; reflexivity.
-        + rewrite Hs1; cbn; lia.
-        + rewrite Hs1; subst s2; cbn. rewrite Er. discriminate.
-        + rewrite Hs1; subst s2; cbn. rewrite Er. discriminate.
-        + intros; auto.
-        + reflexivity.
+        + rewrite Ht. eapply upd_to_sent; eauto.
       - split; cbn; auto. rewrite app_nil_r; auto. }
     destruct (majority_of n <=? len (votes s2)) eqn:Emaj; inversion H; subst s' o; clear H; auto.
     change (@nil (N * rpc)) with (@nil (N * rpc) ++ []).
@@ -150,6 +212,9 @@ Proof.
       * reflexivity.
       * rewrite Hs2; reflexivity.
       * rewrite Hs2; reflexivity.
+      * rewrite Hs2; reflexivity.
+      * rewrite Hs2; reflexivity.
+      * apply become_leader_match_zero.
     + split; cbn; auto. rewrite app_nil_r; auto.
   - inversion H; subst; apply lreaches_refl'; auto.
   - (* AE, current *)
@@ -161,7 +226,9 @@ Proof.
       destruct (append_entries (log s1) (commit s1) es) as [lg|] eqn:Ea; [|discriminate].
       assert (exists sF, s' = sF /\ log sF = lg /\ term sF = term s1 /\ voted_for sF = voted_for s1 /\
                          votes sF = votes s1 /\ (rrole sF = rrole s1 \/ rrole sF = Follower) /\
-                         rrole sF <> Leader /\ o = [(from, aer sF true (pli + len es))]) as (sF & -> & F1 & F2 & F3 & F4 & F5 & F6 & ->).
+                         rrole sF <> Leader /\ o = [(from, aer sF true (pli + len es))] /\
+                         commit sF = (if commit s1 <? N.min lc (pli + len es) then N.min lc (pli + len es) else commit s1))
+        as (sF & -> & F1 & F2 & F3 & F4 & F5 & F6 & -> & F7).
       { inversion H; subst s' o; clear H.
         match goal with |- exists sF, (if ?c then ?a else ?b) = sF /\ _ => exists (if c then a else b) end.
         split; auto. destruct (_ <? _); cbn; repeat split; auto;
@@ -179,20 +246,31 @@ Proof.
            destruct (nth_error (log s1) (N.to_nat pli - 1)) as [e|]; [|discriminate]. exists e. split; auto. lia.
         -- rewrite F1. exact Ea.
         -- apply aer_no_ae.
+        -- unfold aer. rewrite F2. reflexivity.
       * split; cbn; auto.
     + inversion H; subst s' o; clear H.
       apply l_quiet; auto; rewrite ?Hs1; cbn; auto; try (destruct (rrole s1); auto; congruence);
-        [apply no_rvr_aer|apply aer_no_ae].
+        [apply aer_lmsg|apply mi_ok_same; reflexivity].
   - (* AE, stale *)
     inversion H; subst s' o; clear H.
-    apply l_quiet; auto; rewrite ?Hs1; auto; [apply no_rvr_aer|apply aer_no_ae].
+    apply l_quiet; auto; rewrite ?Hs1; auto; [apply aer_lmsg|apply mi_ok_same; reflexivity].
   - (* AER, current *)
+    pose proof (observe_term_cur _ _ _ Eo) as Ht.
     destruct (is_leader s1); cbn [negb] in H; [|inversion H; subst; apply lreaches_refl'; auto].
     destruct succ.
-    + inversion H; subst s' o; clear H. apply l_quiet; auto; rewrite ?Hs1; cbn; auto; [apply no_rvr_nil|apply nil_no_ae].
+    + inversion H; subst s' o; clear H. apply l_quiet; auto; rewrite ?Hs1; cbn; auto; [apply nil_lmsg|].
+      intros R f v Hv Hpos. cbn [match_index set_indexes] in Hv. rewrite mget_mset in Hv.
+      destruct (f =? from) eqn:Ef.
+      * assert (f = from) by lia. subst f. inversion Hv as [Hv']; clear Hv.
+        destruct (mget from (match_index s1)) as [b0|] eqn:Eb.
+        -- destruct (b0 <? mi) eqn:Lt; [|left; congruence].
+           right. rewrite Ht. eapply upd_to_sent; eauto.
+        -- destruct (0 <? mi) eqn:Lt; [|lia]. right. rewrite Ht. eapply upd_to_sent; eauto.
+      * left; auto.
     + destruct (mget from (next_index s1)) as [nx|]; [|inversion H; subst; apply lreaches_refl'; auto].
       destruct (nx =? 0); [discriminate|].
-      inversion H; subst s' o; clear H. apply l_quiet; auto; rewrite ?Hs1; cbn; auto; [apply no_rvr_nil|apply nil_no_ae].
+      inversion H; subst s' o; clear H. apply l_quiet; auto; rewrite ?Hs1; cbn; auto;
+        [apply nil_lmsg|apply mi_ok_same; reflexivity].
   - inversion H; subst; apply lreaches_refl'; auto.
 Qed.
 
@@ -217,13 +295,14 @@ Qed.
 Lemma do_requests_leader : forall reqs s s' red, rrole s = Leader -> do_requests s reqs = (s', red) ->
   exists ext, log s' = log s ++ ext /\ (forall e, In e ext -> e_term e = term s) /\
               term s' = term s /\ rrole s' = Leader /\ voted_for s' = voted_for s /\ votes s' = votes s /\
-              (log_wf (log s) = true -> log_wf (log s') = true).
+              (log_wf (log s) = true -> log_wf (log s') = true) /\ commit s' = commit s /\
+              match_index s' = match_index s.
 Proof.
   induction reqs as [|x r IH]; intros s s' red R H; cbn [do_requests] in H.
   - inversion H; subst. exists []. rewrite app_nil_r. repeat split; auto. intros e [].
   - unfold is_leader in H. rewrite R in H. cbn [role_eqb] in H.
     assert (rrole (set_log s (log s ++ [mkE x (term s) (len (log s) + 1)])) = Leader) as R' by (cbn; exact R).
-    destruct (IH _ _ _ R' H) as (ext & A & B & C & D & E & F & G). cbn in *.
+    destruct (IH _ _ _ R' H) as (ext & A & B & C & D & E & F & G & G7 & G8). cbn in *.
     exists (mkE x (term s) (len (log s) + 1) :: ext).
     split; [rewrite A, <- app_assoc; reflexivity|].
     split; [intros e [<-|He]; auto|].
@@ -248,7 +327,7 @@ Proof.
     rewrite (do_requests_follower _ _ _ _ NL H). apply lreaches_refl.
   - assert (rrole (x_st (y_x y) m) <> Leader) as NL by congruence.
     rewrite (do_requests_follower _ _ _ _ NL H). apply lreaches_refl.
-  - destruct (do_requests_leader _ _ _ _ R H) as (ext & A & B & C & D & E & F & G).
+  - destruct (do_requests_leader _ _ _ _ R H) as (ext & A & B & C & D & E & F & G & H7 & H8).
     eexists. split.
     + apply leffs_one.
       eapply (LAppend n y m s2 (x_sent (y_x y) ++ tag_out m []) ext); auto.
@@ -269,21 +348,14 @@ Proof.
   assert (rrole (x_st (y_x y) m) <> Leader) as NL.
   { apply andb_prop in F. destruct F as [_ F]. unfold is_leader in F. destruct (rrole (x_st (y_x y) m)); cbn in F; congruence. }
   destruct (hb_seen (x_st (y_x y) m)).
-  - intro H; inversion H; subst. apply l_quiet; cbn; auto; [apply no_rvr_nil|apply nil_no_ae].
+  - intro H; inversion H; subst. apply l_quiet; cbn; auto; [apply nil_lmsg|apply mi_ok_same; reflexivity].
   - set (sc := mkS (term (x_st (y_x y) m) + 1) (Some m) Candidate [m] false None (log (x_st (y_x y) m))
                    (commit (x_st (y_x y) m)) (emitted (x_st (y_x y) m)) (next_index (x_st (y_x y) m))
                    (match_index (x_st (y_x y) m))).
     assert (lreaches n y m sc []) as Rc.
     { eexists. split.
-      - apply leffs_one.
-        eapply (LSame n y m sc (x_sent (y_x y)) (x_cast (y_x y) ++ [(term sc, m, m)]) (x_elected (y_x y))).
-        + eapply (ECand n (y_x y) m sc); subst sc; cbn; auto.
-        + reflexivity.
-        + subst sc; cbn; lia.
-        + subst sc; cbn; discriminate.
-        + intro R; contradiction.
-        + intros; auto.
-        + reflexivity.
+      - apply leffs_one. eapply (LCand n y m sc); try (subst sc; cbn; auto; fail).
+        eapply (ECand n (y_x y) m sc); subst sc; cbn; auto.
       - split; cbn; auto. rewrite app_nil_r; auto. }
     destruct (majority_of n <=? 1) eqn:Emaj.
     + intro H; inversion H; subst s' o; clear H.
@@ -297,11 +369,16 @@ Proof.
         -- reflexivity.
         -- rewrite Hs; reflexivity.
         -- rewrite Hs; reflexivity.
+        -- rewrite Hs; reflexivity.
+        -- rewrite Hs; reflexivity.
+        -- apply become_leader_match_zero.
       * split; cbn; auto. rewrite app_nil_r; auto.
     + destruct (last_log_position sc) as [llt lli] eqn:El. intro H; inversion H; subst s' o; clear H.
       match goal with |- lreaches _ _ _ _ ?o => change o with ([] ++ o) end.
       eapply lreaches_then; [exact Rc|]. intros y1 U. pose proof (upd_to_here _ _ _ _ _ U) as Hs.
-      apply l_quiet; auto; rewrite ?Hs; auto; [apply rv_no_rvr|apply rv_no_ae].
+      apply l_quiet; auto; rewrite ?Hs; auto; [|apply mi_ok_same; reflexivity].
+      intros to r Hin. apply in_map_iff in Hin. destruct Hin as (z & E & _). inversion E; subst. right.
+      exists lli, llt. repeat split; auto.
 Qed.
 
 Lemma heartbeat_ae_from : forall me s fs o, heartbeat_msgs me s fs = Some o ->
@@ -333,6 +410,27 @@ Proof.
     intro H; inversion H; subst; unfold do_commit; destruct (is_leader s); cbn; auto.
 Qed.
 
+Lemma commit_emit_more : forall others maj s s' cm,
+  do_emit (do_commit others maj s) = Some (s', cm) ->
+  match_index s' = match_index s /\ commit s' = commit (do_commit others maj s).
+Proof.
+  intros others maj s s' cm; unfold do_emit.
+  destruct (_ <? _); [destruct (_ <=? _); [|discriminate]|];
+    intro H; inversion H; subst; unfold do_commit; destruct (is_leader s); cbn; auto.
+Qed.
+
+Lemma heartbeat_lc : forall me s fs o, heartbeat_msgs me s fs = Some o ->
+  forall to t ldr pli plt es lc, In (to, AE t ldr pli plt es lc) o -> lc = commit s.
+Proof.
+  induction fs as [|f r IH]; intros o H to t ldr pli plt es lc Hin; cbn [heartbeat_msgs] in H.
+  - inversion H; subst. destruct Hin.
+  - match type of H with (if ?c then _ else _) = _ => destruct c end; [discriminate|].
+    match type of H with match ?c with _ => _ end = _ => destruct c end; [|discriminate].
+    match type of H with (if ?c then _ else _) = _ => destruct c end; [discriminate|].
+    destruct (heartbeat_msgs me s r) as [o'|] eqn:E; [|discriminate].
+    inversion H; subst o; clear H. destruct Hin as [Hx|Hx]; [inversion Hx; auto|eapply IH; eauto].
+Qed.
+
 Theorem l_raft_step : forall n y m el hb reqs msgs s' o, m < n ->
   (forall f r, In (f, r) msgs -> In (f, m, r) (x_sent (y_x y))) ->
   raft_step (x_st (y_x y) m) (mk_input n m el hb reqs msgs) = Some (s', o) ->
@@ -357,20 +455,22 @@ Proof.
   { eapply l_election; eauto. rewrite H2. eauto. }
   intros y3 U3. pose proof (upd_to_here _ _ _ _ _ U3) as H3.
   destruct (commit_emit_quiet _ _ _ _ _ Ef) as (Q1 & Q2 & Q3 & Q4).
-  pose proof (commit_emit_log _ _ _ _ _ Ef) as QL.
+  pose proof (commit_emit_log _ _ _ _ _ Ef) as QL. destruct (commit_emit_more _ _ _ _ _ Ef) as [QM QC].
   destruct (rrole s3) eqn:R3.
   - assert (oe = []) as ->.
     { assert (is_leader (do_commit (others_of n m) (majority_of n) s3) = false) as IL
         by (unfold do_commit, is_leader; rewrite R3; cbn; rewrite R3; reflexivity).
       unfold do_heartbeat in Ee. rewrite IL, andb_false_r in Ee. inversion Ee; auto. }
     apply (l_quiet n y3 m s5 []); cbn zeta; rewrite ?H3;
-      [exact Hm|exact Q1|exact Q2|exact Q3|left; congruence|intro RL; congruence|exact QL|apply no_rvr_nil|apply nil_no_ae].
+      [exact Hm|exact Q1|exact Q2|exact Q3|left; congruence|intro RL; congruence|exact QL| |apply nil_lmsg|apply mi_ok_same; exact QM].
+    rewrite QC. unfold do_commit, is_leader. rewrite R3. reflexivity.
   - assert (oe = []) as ->.
     { assert (is_leader (do_commit (others_of n m) (majority_of n) s3) = false) as IL
         by (unfold do_commit, is_leader; rewrite R3; cbn; rewrite R3; reflexivity).
       unfold do_heartbeat in Ee. rewrite IL, andb_false_r in Ee. inversion Ee; auto. }
     apply (l_quiet n y3 m s5 []); cbn zeta; rewrite ?H3;
-      [exact Hm|exact Q1|exact Q2|exact Q3|left; congruence|intro RL; congruence|exact QL|apply no_rvr_nil|apply nil_no_ae].
+      [exact Hm|exact Q1|exact Q2|exact Q3|left; congruence|intro RL; congruence|exact QL| |apply nil_lmsg|apply mi_ok_same; exact QM].
+    rewrite QC. unfold do_commit, is_leader. rewrite R3. reflexivity.
   - eexists. split.
     + apply leffs_one. eapply (LSend n y3 m s5 oe); rewrite ?H3; auto; try congruence.
       * eapply EQuiet; rewrite ?H3; eauto; [left; congruence|].
@@ -378,6 +478,10 @@ Proof.
       * intros to r Hi. unfold do_heartbeat in Ee. destruct (_ && _) in Ee; [|inversion Ee; subst; destruct Hi].
         pose proof (heartbeat_ae_from _ _ _ _ Ee to r Hi) as AF.
         unfold do_commit, is_leader in AF. rewrite R3 in AF. cbn in AF. exact AF.
+      * rewrite QC. destruct (do_commit_mono (others_of n m) (majority_of n) s3) as (_ & _ & Cm). exact Cm.
+      * rewrite QC. intro Hne. destruct (leader_commit_rule _ _ _ Hne) as (_ & _ & e & A & B & C). eauto.
+      * intros to t ldr pli plt es lc Hi. rewrite QC. unfold do_heartbeat in Ee.
+        destruct (_ && _) in Ee; [|inversion Ee; subst; destruct Hi]. eapply heartbeat_lc; eauto.
     + split; cbn; auto.
 Qed.
 
